@@ -255,6 +255,8 @@ def check(ctx):
                 inter["%s/%s" % (impl, mode)] = {"rounds": len(rounds), "calls": sum(r["ops"] for r in rounds),
                                                   "problems": sum(1 for r in rounds if r.get("problem"))}
                 bad = [r for r in rounds if r.get("problem")]
+                if report and not bad:
+                    bad = [{"problem": "the Go runtime reported: " + report[:800]}]
                 if not bad:
                     continue
                 e = None
